@@ -5,7 +5,7 @@ ones keep precedence; these fill the gaps that refactored code tends to reach fo
 Closures are real code: an adaptor/consumer calls the closure's MIR body (looked up by its source span in the callee's generic
 arguments). Loop bounds must be concrete (ranges/slices of concrete length); everything else => Unsupported (fail-closed)."""
 import re, z3
-from .core import Unsupported, Panic, I, Arr, Vec, Ref, SliceRef, Enum, Opaque, BITS, mk_int, mk_bool, copyval
+from .core import Unsupported, Panic, I, Arr, Vec, Ref, SliceRef, Enum, Opaque, Clo, BITS, mk_int, mk_bool, copyval
 
 
 def _load(x):
@@ -44,17 +44,68 @@ class Caller:
     def __init__(self, P):
         self.P = P
 
-    def closure_fn(self, loc):
+    def closure_fn(self, loc, fr=None, args=None, home=None):
         c = [f for f in self.P.fns if '{closure#' in f.name and ('{closure@%s}' % loc) in f.header.split(')')[0] + ')']
         c = [f for f in c if re.search(r'\(_1: (?:&mut |&)?\{closure@%s\}' % re.escape(loc), f.header)]
+        if len(c) > 1 and fr is not None:
+            # closures written inside a macro share their span across the macro's instantiations: take the one nested in the caller
+            parent = fr.fn.name
+            while parent:
+                d = [f for f in c if f.name.startswith(parent + '::{closure')]
+                if len(d) >= 1:
+                    c = d if len(d) == 1 else [f for f in d if f.name.count('{closure') == parent.count('{closure') + 1] or d
+                    break
+                if '::{closure' not in parent:
+                    break
+                parent = parent.rsplit('::{closure', 1)[0]
+        if len(c) > 1 and args is not None:
+            # same span, same enclosing name (macro instantiated at several types): choose by the types of the arguments
+            def fits(f):
+                ps = [f.types.get(a, '') for a in f.argnames[1:]]
+                if len(ps) != len(args):
+                    return False
+                for t, v in zip(ps, args):
+                    v = _load(v)
+                    if isinstance(v, I) and t.replace('&', '').replace('mut ', '').strip() != v.ty:
+                        return False
+                return True
+            d = [f for f in c if fits(f)]
+            if d:
+                c = d
+        hfn = home if home is not None else (fr.fn if fr is not None else None)
+        if len(c) > 1 and hfn is not None and hfn in self.P.fns:
+            # identical names and headers (a macro instantiated at several types under one impl span): the dump prints a function's
+            # closures right after it, so take the first candidate that follows the calling function
+            pi = self.P.fns.index(hfn)
+            after = [f for f in c if self.P.fns.index(f) > pi]
+            if after:
+                first = min(after, key=lambda f: self.P.fns.index(f))
+                between = self.P.fns[pi + 1:self.P.fns.index(first)]
+                if all('{closure' in g.name or 'promoted' in g.name for g in between):
+                    c = [first]
+        if len(c) > 1 and len({tuple(x for b in f.blocks.values() for x in b) for f in c}) == 1:
+            c = c[:1]          # textually identical bodies
         if len(c) != 1:
             raise Unsupported('closure %s not found in the MIR (%d candidates)' % (loc, len(c)))
         return c[0]
 
-    def call(self, m, fr, spec, clo, args):
+    def call_value(self, m, fr, fval, args):
+        """call a function VALUE: a closure (tagged with its span), a captureless closure or a function item"""
+        v = _load1(fval)
+        if isinstance(v, Clo):
+            return self.call(m, fr, FnSpec('closure', v.loc), v, args, home=v.home)
+        if isinstance(v, Opaque) and v.tag == 'zst' and isinstance(v.payload, str) and v.payload.startswith('{closure@'):
+            return self.call(m, fr, FnSpec('closure', v.payload[9:-1]), v, args)
+        if isinstance(v, Opaque) and v.tag == 'fnitem':
+            return self.P.call(m, fr, v.payload, args)
+        raise Unsupported('call of a function value that is not a known closure or function item: %r' % (v,))
+
+    def call(self, m, fr, spec, clo, args, home=None):
         if spec.kind == 'path':
             return self.P.call(m, fr, spec.what, args)
-        f = self.closure_fn(spec.what)
+        if home is None and isinstance(clo, Clo):
+            home = clo.home
+        f = self.closure_fn(spec.what, fr, args, home)
         byref = re.search(r'\(_1: (&mut |&)\{closure@', f.header)
         selfarg = Ref([clo], 0) if byref else clo
         return m.run(f, [selfarg] + list(args), fr.subst)
@@ -148,6 +199,20 @@ class SliceView(It):
         return self._ref(self.pl[2])
 
 
+class ChunksView(It):
+    """payload [slice, chunk size, pos] shared with the older Opaque('chunks') representation"""
+    def __init__(self, pl):
+        self.pl = pl
+
+    def next(self, m):
+        sl, k, pos = self.pl
+        if pos >= sl.n:
+            return None
+        n = min(k, sl.n - pos)
+        self.pl[2] = pos + n
+        return SliceRef(sl.arr, sl.start + pos, n)
+
+
 class OwnedView(It):
     def __init__(self, items):
         self.items, self.pos, self.end = list(items), 0, len(items)
@@ -179,6 +244,12 @@ class Adapt(It):
         if k == 'map':
             v = nx(m)
             return None if v is None else (self._f(m, v),)
+        if k == 'inspect':
+            v = nx(m)
+            if v is None:
+                return None
+            self._f(m, Ref([v], 0))
+            return (v,)
         if k == 'filter':
             while True:
                 v = nx(m)
@@ -270,6 +341,28 @@ class Adapt(It):
         return None if r is None else r[0]
 
 
+class Successors(It):
+    def __init__(self, first, step):
+        self.cur, self.step = first, step
+
+    def next(self, m):
+        c = self.cur
+        if c.variant != 'Some':
+            return None
+        v = c.fields[0]
+        self.cur = self.step(m, Ref([v], 0))
+        return v
+
+
+class FromFn(It):
+    def __init__(self, f):
+        self.f = f
+
+    def next(self, m):
+        r = self.f(m)
+        return r.fields[0] if r.variant == 'Some' else None
+
+
 def to_iter(x):
     x = _load1(x)
     if isinstance(x, It):
@@ -278,6 +371,8 @@ def to_iter(x):
         return SliceView(x.payload)
     if isinstance(x, Opaque) and x.tag == 'it':
         return x.payload
+    if isinstance(x, Opaque) and x.tag == 'chunks':
+        return ChunksView(x.payload)
     if isinstance(x, list) and len(x) == 2 and all(isinstance(v, I) for v in x):
         return RangeView(x)
     if isinstance(x, list) and len(x) == 1 and isinstance(x[0], I):
@@ -310,7 +405,7 @@ def install_std_models(P):
     def _(m, fr, a, mm):
         x = a[0]
         v = _load1(x)
-        if isinstance(v, (It,)) or (isinstance(v, Opaque) and v.tag in ('iter', 'it')) or (isinstance(v, list) and v and all(isinstance(t, I) for t in v)):
+        if isinstance(v, (It,)) or (isinstance(v, Opaque) and v.tag in ('iter', 'it', 'chunks')) or (isinstance(v, list) and v and all(isinstance(t, I) for t in v)):
             return x if not isinstance(x, Ref) else v
         ty = mm.group(1)
         if isinstance(v, (Arr, Vec, SliceRef)):
@@ -328,7 +423,62 @@ def install_std_models(P):
     def _(m, fr, a, mm):
         return wrap(RangeView([a[0], a[1]], inclusive=True))
 
-    ADAPT1 = 'map|filter|take_while|skip_while|map_while'
+    @M(r'^(?:std::iter::|core::iter::)?(successors|from_fn)::<(.*)>$', regex=True)
+    def _(m, fr, a, mm):
+        if mm.group(1) == 'successors':
+            f = a[1]
+            return wrap(Successors(a[0], lambda mach, x: C.call_value(mach, fr, f, [x])))
+        f = a[0]
+        cell = [f]
+        return wrap(FromFn(lambda mach: C.call_value(mach, fr, Ref(cell, 0), [])))
+
+    @M(r'^<(.+) as (FnMut|Fn|FnOnce)<\((.*)\)>>::(call_mut|call|call_once)$', regex=True)
+    def _(m, fr, a, mm):
+        args = a[1] if isinstance(a[1], list) else [a[1]]
+        return C.call_value(m, fr, a[0], list(args))
+
+    @M(r'^core::bool::<impl bool>::(then|then_some)(?:::<(.*)>)?$', regex=True)
+    def _(m, fr, a, mm):
+        c = a[0]
+        t = m.branch_bool(c) if not isinstance(c, bool) else c
+        if not t:
+            return Enum('None')
+        return Enum('Some', [a[1] if mm.group(1) == 'then_some' else C.call_value(m, fr, a[1], [])])
+
+    def struct_eq(m, x, y):
+        x, y = _load1(x), _load1(y)
+        if isinstance(x, Enum) and isinstance(y, Enum):
+            if x.variant != y.variant or len(x.fields) != len(y.fields):
+                return False
+            r = True
+            for p_, q_ in zip(x.fields, y.fields):
+                e = struct_eq(m, p_, q_)
+                if e is False:
+                    return False
+                r = e if r is True else m.binop('BitAnd', r, e)
+            return r
+        if isinstance(x, I) and isinstance(y, I):
+            return m.binop('Eq', x, y)
+        if isinstance(x, (bool, z3.BoolRef)) and isinstance(y, (bool, z3.BoolRef)):
+            return m.binop('Eq', x, y)
+        if isinstance(x, list) and isinstance(y, list) and len(x) == len(y):
+            r = True
+            for p_, q_ in zip(x, y):
+                e = struct_eq(m, p_, q_)
+                if e is False:
+                    return False
+                r = e if r is True else m.binop('BitAnd', r, e)
+            return r
+        raise Unsupported('structural equality of %r and %r' % (x, y))
+
+    @M(r'^<(Option<.*>|std::cmp::Ordering|Ordering|Result<.*>) as PartialEq>::(eq|ne)$', regex=True)
+    def _(m, fr, a, mm):
+        r = struct_eq(m, a[0], a[1])
+        if mm.group(2) == 'eq':
+            return r
+        return (not r) if isinstance(r, bool) else mk_bool(z3.Not(r))
+
+    ADAPT1 = 'map|filter|take_while|skip_while|map_while|inspect'
 
     @M(r'^<(.+) as (?:std::iter::)?(Iterator|DoubleEndedIterator)>::(\w+)(?:::<(.*)>)?$', regex=True)
     def _(m, fr, a, mm):
@@ -372,9 +522,9 @@ def install_std_models(P):
                     if isinstance(v, Vec):
                         out.extend(v.items)
                     elif isinstance(v, I) and v.ty == 'char':
-                        if v.sym() or v.v > 127:
-                            raise Unsupported('collecting a symbolic/non-ASCII char into a String')
-                        out.append(I(v.v, 'u8'))
+                        tmp = Vec(out, True)
+                        P.call(m, fr, 'String::push', [Ref([tmp], 0), v])     # the program's own representation of chars in a String
+                        out = tmp.items
                     else:
                         out.extend(as_slice(v).values())
                 return Vec(out, True)
@@ -484,6 +634,31 @@ def install_std_models(P):
                     v = copyval(_load1(v))
                 _load1(a[0]).items.append(v)
 
+    @M(r'^<(\w+) as (From|Into)<(\w+)>>::(from|into)$', regex=True)
+    def _(m, fr, a, mm):
+        dst, src = (mm.group(1), mm.group(3)) if mm.group(2) == 'From' else (mm.group(3), mm.group(1))
+        v = a[0]
+        if not isinstance(v, I) or dst not in BITS or src not in BITS and src != 'bool':
+            raise Unsupported('conversion %s -> %s' % (src, dst))
+        if BITS[dst] < BITS[v.ty]:
+            raise Unsupported('narrowing From conversion')
+        if not v.sym():
+            return I(v.sval() if v.ty[0] == 'i' else v.v, dst)
+        z = v.z()
+        ext = BITS[dst] - BITS[v.ty]
+        return mk_int(z if ext == 0 else (z3.SignExt(ext, z) if v.ty[0] == 'i' else z3.ZeroExt(ext, z)), dst)
+
+    @M(r'^<(Option|Result)<.*> as Try>::branch$', regex=True)
+    def _(m, fr, a, mm):
+        r = a[0]
+        if r.variant in ('Some', 'Ok'):
+            return Enum('Continue', [r.fields[0] if r.fields else []])
+        return Enum('Break', [r])
+
+    @M(r'^<(Option|Result)<.*> as FromResidual<.*>>::from_residual$', regex=True)
+    def _(m, fr, a, mm):
+        return a[0]
+
     # ---- Option
     @M(r'^Option::<(.+?)>::(filter|map|and_then|unwrap_or|unwrap_or_else|map_or|is_some|is_none|is_some_and|copied|cloned|expect|take|as_ref|as_mut|unwrap_or_default|or|ok_or|unwrap_unchecked)(?:::<(.*)>)?$', regex=True)
     def _(m, fr, a, mm):
@@ -575,6 +750,13 @@ def install_std_models(P):
         if k.v > sl.n:
             raise Panic('mid > len')
         return [SliceRef(sl.arr, sl.start, k.v), SliceRef(sl.arr, sl.start + k.v, sl.n - k.v)]
+
+    @M(r'^core::slice::<impl \[.+\]>::fill$', regex=True)
+    def _(m, fr, a, mm):
+        sl = as_slice(a[0])
+        for i in range(sl.n):
+            sl.set(i, copyval(a[1]))
+        return []
 
     @M(r'^core::slice::<impl \[.+\]>::(split_first|split_last)$', regex=True)
     def _(m, fr, a, mm):
